@@ -579,6 +579,44 @@ def r03_8(chk):
     chk.floor("R03.8", 6)
 
 
+
+def r03_9(chk):
+    """No Date is built at import time.  The EOP database is instantiated -- and a failure to do so cached for the rest of the
+    process -- by the first `Date(...)`; the documented way to choose the database, its folder and the missing-data policy is
+    `config.update(...)` after the imports.  A module-level `X = Date(...)` anywhere in the package therefore freezes the
+    unconfigured state (wave l: a convenience constant in beyond/dates/__init__.py -> zero corrections for every date)."""
+    n = 0
+    for rel, m in sorted(chk.repo.modules.items()):
+        tree = ast.parse(m.source)
+
+        def walk(stmts):
+            for st in stmts:
+                if isinstance(st, (ast.FunctionDef, ast.AsyncFunctionDef)):
+                    # decorators and defaults are evaluated at import time
+                    for d in st.decorator_list + st.args.defaults + [k for k in st.args.kw_defaults if k is not None]:
+                        yield d
+                    continue
+                if isinstance(st, ast.ClassDef):
+                    yield from walk(st.body)
+                    continue
+                if isinstance(st, ast.If) and "__name__" in unparse(st.test):
+                    continue
+                yield st
+        bad = []
+        for node in walk(tree.body):
+            for c in ast.walk(node):
+                if isinstance(c, (ast.Lambda,)):
+                    continue
+                if isinstance(c, ast.Call):
+                    t = unparse(c.func)
+                    if t == "Date" or t.startswith("Date.") or t.endswith(".Date") or ".Date." in t:
+                        bad.append(unparse(c)[:60])
+        n += 1
+        chk.inst("R03.9", rel, not bad, "no Date built at import time" if not bad else
+                 f"import-time `{bad[0]}`: the EOP database is instantiated before the program can configure it", rel, nontrivial=bool(bad))
+    chk.floor("R03.9", 50)
+
+
 def run(chk):
     chk.rule("R03.1", "scale graph is a tree with one provider per link; exact offsets; add/subtract orientation")
     chk.rule("R03.2", "order, equality and hash use one invariant key")
@@ -596,6 +634,8 @@ def run(chk):
     chk.guard(r03_6, chk)
     chk.guard(r03_7, chk)
     chk.guard(r03_8, chk)
+    chk.rule("R03.9", "no Date is built at import time (the first Date instantiates the EOP database, before any configuration)")
+    chk.guard(r03_9, chk)
     # "UT1−UTC … as tabulated by IERS for that day": the column layout of the IERS readers and the unit constants at the
     # consumers are C02's clause R02.6; C03 needs it as much (a second sub-agent's C03 change was the sign column of UT1−UTC)
     from .c02 import r02_6
